@@ -1,4 +1,4 @@
-import Wx.Pure.Origins
+import Wx.Pure.OriginsThm
 /-! # C20 — Project origins are exactly the marked ancestors
 
 > Origin detection returns exactly those directories among the given path and its ancestors that contain a recognised
@@ -34,5 +34,11 @@ theorem classification_is_documented : (∀ t ∈ ProjectType.all, isVcs t = (do
 
 /-- a directory called like a file marker is not a marker -/
 example : types [("Cargo.toml", .dir)] = [] ∧ types [("Cargo.toml", .file), (".git", .dir)] = [.git, .cargo] := by decide
+
+/-- the model the correspondence stream runs (pinned tables, nothing generated) IS the code's function over the
+    regenerated tables: `origins()` on every chain, `types()` on every listing -/
+theorem code_is_the_specification :
+    (∀ chain, origins chain = originsDoc chain) ∧ (∀ l n, n ∈ typesDoc l ↔ ∃ t ∈ types l, ptNameK t = n) :=
+  ⟨origins_eq_doc, types_eq_doc⟩
 
 end Props.C20
